@@ -75,6 +75,7 @@ type evQuery struct {
 	anomaly  string
 	rawChunk string // chunk_size member as written ("" = from chunk; "-" = member left out)
 	rawOver  map[string]string
+	noModel  bool // the specification leaves the expectation open: only paging invariance and version agreement are judged
 	bigKeys  int // number of filler alternatives put into key position 0 (oversized filters)
 	withPre  bool
 }
@@ -359,6 +360,14 @@ func (e *evWorld) genQueryOpt(plain bool) *evQuery {
 		// is not fixed by the specification, so such filters are not generated
 		for len(q.keys) > 0 && len(q.keys[len(q.keys)-1]) == 0 {
 			q.keys = q.keys[:len(q.keys)-1]
+		}
+		// ... except in a small share of the queries, which are judged WITHOUT a model: whatever such a
+		// pattern selects, it selects the same for every chunk size and on every API version
+		if len(q.keys) > 0 && t.Draw("f.keys.trailing.empty", 8) == 7 {
+			for i, n := 0, 1+t.Draw("f.keys.trailing.n", 2); i < n; i++ {
+				q.keys = append(q.keys, nil)
+			}
+			q.noModel = true
 		}
 	}
 	q.chunk = evChunkSizes[t.Draw("chunk", len(evChunkSizes))]
